@@ -54,42 +54,58 @@ package x509
 
 // ---------------------------------------------------------------- parseCertificate
 // RFC 6962 3.1 / 3.3: the precertificate poison extension is 1.3.6.1.4.1.11129.2.4.3, the
-// embedded SCT list extension is 1.3.6.1.4.1.11129.2.4.2.
+// embedded SCT list extension is 1.3.6.1.4.1.11129.2.4.2. The two package variables hold these
+// identifiers (global invariants); the filter below is stated against the variables, with the
+// comparison `oidEq` = same length and same arcs (what ObjectIdentifier.Equal decides).
 //@ global len(oidExtensionCTPrecertificatePoison) == 10 && oidExtensionCTPrecertificatePoison[0] == 1 && oidExtensionCTPrecertificatePoison[1] == 3 && oidExtensionCTPrecertificatePoison[2] == 6 && oidExtensionCTPrecertificatePoison[3] == 1 && oidExtensionCTPrecertificatePoison[4] == 4 && oidExtensionCTPrecertificatePoison[5] == 1 && oidExtensionCTPrecertificatePoison[6] == 11129 && oidExtensionCTPrecertificatePoison[7] == 2 && oidExtensionCTPrecertificatePoison[8] == 4 && oidExtensionCTPrecertificatePoison[9] == 3
 //@ global len(oidExtensionSignedCertificateTimestampList) == 10 && oidExtensionSignedCertificateTimestampList[0] == 1 && oidExtensionSignedCertificateTimestampList[1] == 3 && oidExtensionSignedCertificateTimestampList[2] == 6 && oidExtensionSignedCertificateTimestampList[3] == 1 && oidExtensionSignedCertificateTimestampList[4] == 4 && oidExtensionSignedCertificateTimestampList[5] == 1 && oidExtensionSignedCertificateTimestampList[6] == 11129 && oidExtensionSignedCertificateTimestampList[7] == 2 && oidExtensionSignedCertificateTimestampList[8] == 4 && oidExtensionSignedCertificateTimestampList[9] == 2
-//@ pred ctArc(a) = len(a) == 10 && a[0] == 1 && a[1] == 3 && a[2] == 6 && a[3] == 1 && a[4] == 4 && a[5] == 1 && a[6] == 11129 && a[7] == 2 && a[8] == 4
-//@ pred isCTOid(a) = ctArc(a) && (a[9] == 3 || a[9] == 2)
 // two extension values are the same element: same id, criticality and value slices
 //@ pred extSame(x, y) = same(x.Id, y.Id) && x.Critical == y.Critical && same(x.Value, y.Value)
-
 //@ pred tbsOf(x) = unboxed(x, tbsCertificate)
-//@ pred fp16(f, m) = len(f) == 16 && forall(k, 0, 16, f[k] == spec.md5b(m, k))
-//@ pred fp20(f, m) = len(f) == 20 && forall(k, 0, 20, f[k] == spec.sha1b(m, k))
-//@ pred fp32(f, m) = len(f) == 32 && forall(k, 0, 32, f[k] == spec.sha256b(m, k))
+// f is the MD5 / SHA-1 / SHA-256 digest of message m (one obligation each: ite keeps the
+// conjunction together)
+//@ pred fp16(f, m) = ite(len(f) == 16 && forall(k, 0, 16, f[k] == spec.md5b(m, k)), true, false)
+//@ pred fp20(f, m) = ite(len(f) == 20 && forall(k, 0, 20, f[k] == spec.sha1b(m, k)), true, false)
+//@ pred fp32(f, m) = ite(len(f) == 32 && forall(k, 0, 32, f[k] == spec.sha256b(m, k)), true, false)
+// the five raw fields of out are the raw slices of the input structure (as passed in)
+//@ pred cpRaw(out, in) = ite(same(out.Raw, old(in.Raw)) && same(out.RawTBSCertificate, old(in.TBSCertificate.Raw)) && same(out.RawSubjectPublicKeyInfo, old(in.TBSCertificate.PublicKey.Raw)) && same(out.RawSubject, old(in.TBSCertificate.Subject.FullBytes)) && same(out.RawIssuer, old(in.TBSCertificate.Issuer.FullBytes)), true, false)
 
+// parseCertificate is claimed PARTIALLY (`claims`): only the at-call assertions and loop
+// invariants below, plus the preconditions of its contracted callees; nothing is promised to
+// callers (no ensures, modifies all, maypanic). The metadata facts of C06 are stated
+//  (a) where each value is computed (`at call X assert` on the arguments of X), and
+//  (b) as checkpoints carried along the straight-line prefix up to the last call before the
+//      extension loop (the Time.Sub call of the ValidityPeriod line): out's raw fields,
+//      fingerprints, version and self-signed flag hold the stated values there. The extension
+//      loop that follows (480 lines, 85 nested loops) assigns none of these fields; that frame
+//      argument is NOT proved (see /verif/notes/x509meta.md).
 //@ func parseCertificate
 //@   requires in != nil && in.TBSCertificate.PublicKey.PublicKey.BitLength >= 0
 //@   maypanic
 //@   modifies all
-//@   uses perreturn
-//@   claims at inv
+//@   uses perreturn xadd
+//@   claims at inv pre
 // -- every fingerprint is computed from exactly the named bytes of the input structure
 //@   at call MD5Fingerprint assert same(arg0, old(in.Raw))
 //@   at call SHA1Fingerprint assert same(arg0, old(in.Raw))
 //@   at call SHA256Fingerprint#1 assert same(arg0, old(in.Raw))
 //@   at call SHA256Fingerprint#2 assert same(arg0, old(in.TBSCertificate.PublicKey.Raw))
 //@   at call SHA256Fingerprint#3 assert same(arg0, old(in.TBSCertificate.Raw))
-// -- loop 1 (CT filter): the kept list holds no CT extension; every kept element is an element
-//    of the original list (at a position not before its own); every non-CT element seen so far
-//    is kept (at a position not after its own)
-//@   loop 1 invariant 0 <= len(extensions) && len(extensions) <= it && it <= len(originalExtensions)
-//@   loop 1 invariant [noct] forall(j, 0, len(extensions), !isCTOid(extensions[j].Id))
-//@   loop 1 invariant [sound] forall(j, 0, len(extensions), exists(i, j, it, extSame(extensions[j], originalExtensions[i])))
-//@   loop 1 invariant [complete] forall(i, 0, it, isCTOid(originalExtensions[i].Id) || exists(j, 0, i+1, j < len(extensions) && extSame(extensions[j], originalExtensions[i])))
-// -- FingerprintNoCT: SHA-256 of the encoding of the TBS with Raw dropped and the filtered list
+// -- loop 1 (CT filter): the kept list holds neither a poison nor an SCT-list extension, and
+//    every kept element is an element of the original list (at a position not before its own).
+//    (spec.mark: instantiation marker, /verif/specs/hostname_mark.smt2; existentials are written
+//    as negated universals so that they carry the marker.)
+//@   loop 1 invariant 0 <= len(extensions) && len(extensions) <= it && it <= len(originalExtensions) && cap(extensions) == len(originalExtensions) && fresh(extensions)
+//@   loop 1 invariant spec.mark(it)
+//@   loop 1 invariant same(oidExtensionCTPrecertificatePoison, old(oidExtensionCTPrecertificatePoison)) && same(oidExtensionSignedCertificateTimestampList, old(oidExtensionSignedCertificateTimestampList))
+//@   loop 1 invariant [nopoison] forall(j, 0, len(extensions), !spec.mark(j) || !oidEq(extensions[j].Id, old(oidExtensionCTPrecertificatePoison)), spec.mark(j))
+//@   loop 1 invariant [nosct] forall(j, 0, len(extensions), !spec.mark(j) || !oidEq(extensions[j].Id, old(oidExtensionSignedCertificateTimestampList)), spec.mark(j))
+//@   loop 1 invariant [sound] forall(j, 0, len(extensions), !spec.mark(j) || !forall(i, j, it, !spec.mark(i) || !extSame(extensions[j], originalExtensions[i]), spec.mark(i)), spec.mark(j))
+// -- FingerprintNoCT: SHA-256 of asn1.Marshal of the TBS with Raw dropped and the filtered list
 //@   at call asn1.Marshal assert typeis(arg0, tbsCertificate) && tbsOf(arg0).Raw == nil && same(tbsOf(arg0).Extensions, extensions)
 //@   at call asn1.Marshal assert tbsOf(arg0).Version == old(in.TBSCertificate.Version) && tbsOf(arg0).SerialNumber == old(in.TBSCertificate.SerialNumber) && same(tbsOf(arg0).Issuer.FullBytes, old(in.TBSCertificate.Issuer.FullBytes)) && same(tbsOf(arg0).Subject.FullBytes, old(in.TBSCertificate.Subject.FullBytes)) && same(tbsOf(arg0).PublicKey.Raw, old(in.TBSCertificate.PublicKey.Raw))
-//@   at call asn1.Marshal assert forall(j, 0, len(extensions), !isCTOid(extensions[j].Id))
+//@   at call asn1.Marshal assert [nopoison] forall(j, 0, len(extensions), !spec.mark(j) || !oidEq(extensions[j].Id, old(oidExtensionCTPrecertificatePoison)), spec.mark(j))
+//@   at call asn1.Marshal assert [nosct] forall(j, 0, len(extensions), !spec.mark(j) || !oidEq(extensions[j].Id, old(oidExtensionSignedCertificateTimestampList)), spec.mark(j))
 //@   at call SHA256Fingerprint#4 assert same(arg0, tbsbytes)
 // -- SPKISubjectFingerprint: one SHA-256 stream fed the SPKI, then the subject, then summed
 //@   at call Write#1 assert arg0 == hasher && same(arg1, old(in.TBSCertificate.PublicKey.Raw))
@@ -97,16 +113,47 @@ package x509
 //@   at call Sum assert arg0 == hasher && arg1 == nil
 // -- SelfSigned: the self-signature check is made only for equal raw names, on out's own fields
 //@   at call CheckSignature assert arg0 == out && eq(out.RawSubject, out.RawIssuer) && arg1 == out.SignatureAlgorithm && same(arg2, out.RawTBSCertificate) && same(arg3, out.Signature)
-// -- checkpoint before the extension loop (the call of Time.Sub in the ValidityPeriod line)
-//@   at call Time).Sub assert [raw] same(out.Raw, old(in.Raw)) && same(out.RawTBSCertificate, old(in.TBSCertificate.Raw)) && same(out.RawSubjectPublicKeyInfo, old(in.TBSCertificate.PublicKey.Raw)) && same(out.RawSubject, old(in.TBSCertificate.Subject.FullBytes)) && same(out.RawIssuer, old(in.TBSCertificate.Issuer.FullBytes))
-//@   at call Time).Sub assert [version] out.Version == old(in.TBSCertificate.Version) + 1
-//@   at call Time).Sub assert [selfsigned] out.SelfSigned ==> eq(out.RawSubject, out.RawIssuer) && ghost.sigOK(out, out.SignatureAlgorithm, out.RawTBSCertificate, out.Signature)
-//@   at call Time).Sub assert [md5] fp16(out.FingerprintMD5, old(string(in.Raw)))
-//@   at call Time).Sub assert [sha1] fp20(out.FingerprintSHA1, old(string(in.Raw)))
-//@   at call Time).Sub assert [sha256] fp32(out.FingerprintSHA256, old(string(in.Raw)))
-//@   at call Time).Sub assert [spki] fp32(out.SPKIFingerprint, old(string(in.TBSCertificate.PublicKey.Raw)))
-//@   at call Time).Sub assert [tbs] fp32(out.TBSCertificateFingerprint, old(string(in.TBSCertificate.Raw)))
-//@   at call Time).Sub assert [validity] arg0 == old(in.TBSCertificate.Validity.NotAfter) && arg1 == old(in.TBSCertificate.Validity.NotBefore)
+// -- checkpoints (A: after the CT filter, B, C, D: along the prefix, F: last call before the
+//    extension loop)
+//@   at call asn1.Marshal assert [A] cpRaw(out, in)
+//@   at call asn1.Marshal assert [A] fp16(out.FingerprintMD5, string(out.Raw))
+//@   at call asn1.Marshal assert [A] fp20(out.FingerprintSHA1, string(out.Raw))
+//@   at call asn1.Marshal assert [A] fp32(out.FingerprintSHA256, string(out.Raw))
+//@   at call asn1.Marshal assert [A] fp32(out.SPKIFingerprint, string(out.RawSubjectPublicKeyInfo))
+//@   at call asn1.Marshal assert [A] fp32(out.TBSCertificateFingerprint, string(out.RawTBSCertificate))
+//@   at call parsePublicKey assert [B] cpRaw(out, in)
+//@   at call parsePublicKey assert [B] fp16(out.FingerprintMD5, string(out.Raw))
+//@   at call parsePublicKey assert [B] fp20(out.FingerprintSHA1, string(out.Raw))
+//@   at call parsePublicKey assert [B] fp32(out.FingerprintSHA256, string(out.Raw))
+//@   at call parsePublicKey assert [B] fp32(out.SPKIFingerprint, string(out.RawSubjectPublicKeyInfo))
+//@   at call parsePublicKey assert [B] fp32(out.TBSCertificateFingerprint, string(out.RawTBSCertificate))
+//@   at call parsePublicKey assert [B] fp32(out.FingerprintNoCT, string(tbsbytes))
+//@   at call FillFromRDNSequence#1 assert [C] cpRaw(out, in)
+//@   at call FillFromRDNSequence#1 assert [C] out.Version == old(in.TBSCertificate.Version) + 1
+//@   at call FillFromRDNSequence#1 assert [C] fp16(out.FingerprintMD5, string(out.Raw))
+//@   at call FillFromRDNSequence#1 assert [C] fp20(out.FingerprintSHA1, string(out.Raw))
+//@   at call FillFromRDNSequence#1 assert [C] fp32(out.FingerprintSHA256, string(out.Raw))
+//@   at call FillFromRDNSequence#1 assert [C] fp32(out.SPKIFingerprint, string(out.RawSubjectPublicKeyInfo))
+//@   at call FillFromRDNSequence#1 assert [C] fp32(out.TBSCertificateFingerprint, string(out.RawTBSCertificate))
+//@   at call FillFromRDNSequence#1 assert [C] fp32(out.FingerprintNoCT, string(tbsbytes))
+//@   at call bytes.Equal assert [D] cpRaw(out, in)
+//@   at call bytes.Equal assert [D] out.Version == old(in.TBSCertificate.Version) + 1 && !out.SelfSigned
+//@   at call bytes.Equal assert [D] fp16(out.FingerprintMD5, string(out.Raw))
+//@   at call bytes.Equal assert [D] fp20(out.FingerprintSHA1, string(out.Raw))
+//@   at call bytes.Equal assert [D] fp32(out.FingerprintSHA256, string(out.Raw))
+//@   at call bytes.Equal assert [D] fp32(out.SPKIFingerprint, string(out.RawSubjectPublicKeyInfo))
+//@   at call bytes.Equal assert [D] fp32(out.TBSCertificateFingerprint, string(out.RawTBSCertificate))
+//@   at call bytes.Equal assert [D] fp32(out.FingerprintNoCT, string(tbsbytes))
+//@   at call Time).Sub assert [F] cpRaw(out, in)
+//@   at call Time).Sub assert [F] out.Version == old(in.TBSCertificate.Version) + 1
+//@   at call Time).Sub assert [F] out.SelfSigned ==> eq(out.RawSubject, out.RawIssuer) && ghost.sigOK(out, out.SignatureAlgorithm, out.RawTBSCertificate, out.Signature)
+//@   at call Time).Sub assert [F] fp16(out.FingerprintMD5, string(out.Raw))
+//@   at call Time).Sub assert [F] fp20(out.FingerprintSHA1, string(out.Raw))
+//@   at call Time).Sub assert [F] fp32(out.FingerprintSHA256, string(out.Raw))
+//@   at call Time).Sub assert [F] fp32(out.SPKIFingerprint, string(out.RawSubjectPublicKeyInfo))
+//@   at call Time).Sub assert [F] fp32(out.TBSCertificateFingerprint, string(out.RawTBSCertificate))
+//@   at call Time).Sub assert [F] fp32(out.FingerprintNoCT, string(tbsbytes))
+//@   at call Time).Sub assert [F] arg0 == old(in.TBSCertificate.Validity.NotAfter) && arg1 == old(in.TBSCertificate.Validity.NotBefore)
 
 // getPublicKeyAlgorithmFromOID (helper of parseCertificate): a table lookup, no effect on memory.
 //@ func getPublicKeyAlgorithmFromOID
